@@ -125,6 +125,15 @@ class _Stop(core.Cut):
 
 
 # ----------------------------------------------------------------------------- documented element sequences
+def _at(r, j):
+    """Address of element j of a memory operand: internal cursors are 8-bit cell numbers and count
+    modulo 256 (isa.IMEM_CURSOR_WRAPS), external cursors are plain pointers."""
+    a = r["e0"] + r["dir"] * j
+    if r["kind"] == "i" and isa.IMEM_CURSOR_WRAPS:
+        return isa.bv(INTERNAL) + ((a - INTERNAL) & 0xFF)
+    return a
+
+
 def roles_of(mn, ops, st0):
     """For every memory operand: (first element address term, direction, auto-modified register or None).
     st0 = specification state at instruction start (registers, initial memory)."""
@@ -202,7 +211,11 @@ def run_path(eng, pre, opcode, known=(), skeleton=False):
     for r in mem_roles:
         last = r["e0"] + r["dir"] * (n - 1)
         lo, hi = (INTERNAL, INTERNAL + 0xFF) if r["kind"] == "i" else (0, M20)
-        st0.need(z3.And(r["e0"] >= lo, r["e0"] <= hi, last >= lo, last <= hi))
+        if r["kind"] == "i" and isa.IMEM_CURSOR_WRAPS:
+            # an internal cursor is an 8-bit cell number: (m++) counts modulo 256, no bound on the run
+            st0.need(z3.And(r["e0"] >= lo, r["e0"] <= hi))
+        else:
+            st0.need(z3.And(r["e0"] >= lo, r["e0"] <= hi, last >= lo, last <= hi))
     if mn in ("DADL", "DSBL"):
         pass
     # skeleton mode: the control skeleton of the loop (count decrements by one per element, the loop goes round again iff
@@ -284,7 +297,7 @@ def run_path(eng, pre, opcode, known=(), skeleton=False):
             inv = [T(j) >= 0, T(j) < n, T(ih) == n - T(j)]
             for r in mem_roles:
                 if r.get("temp") is not None:
-                    inv.append(T(hv[r["temp"]]) == r["e0"] + r["dir"] * T(j))
+                    inv.append(T(hv[r["temp"]]) == _at(r, T(j)))
             for rg in regs_tracked:
                 h = eng.fresh(f"h{rg}", 20)
                 emu.regs._values[RN[rg]] = h
@@ -305,7 +318,7 @@ def run_path(eng, pre, opcode, known=(), skeleton=False):
 
     def elem(ri):
         r = mem_roles[ri]
-        return r["e0"] + r["dir"] * T(state["j"])
+        return _at(r, T(state["j"]))
 
     def _step_obligations(continues):
         j = T(state["j"])
@@ -400,7 +413,7 @@ def run_path(eng, pre, opcode, known=(), skeleton=False):
             P("step:continues-only-if-elements-remain", j + 1 < n)
             for ri, r in enumerate(mem_roles):
                 if r.get("temp") is not None:
-                    P(f"inv:cursor{ri}", T(emu.regs._values[RN[f"TEMP{r['temp']}"]]) == r["e0"] + r["dir"] * (j + 1))
+                    P(f"inv:cursor{ri}", T(emu.regs._values[RN[f"TEMP{r['temp']}"]]) == _at(r, j + 1))
             for rg in regs_tracked:
                 d = [r["dir"] for r in mem_roles if r["reg"] == rg][0]
                 P(f"inv:{rg}", T(emu.regs.get(RN[rg])) == state["R0"][rg] + d * (j + 1))
